@@ -170,7 +170,8 @@ func genMultiset(r *rand.Rand, n int) []vegeta.Result {
 	codes := [][]uint16{{200}, {200, 404, 500}, {0, 100, 199, 200, 204, 302, 399, 400, 404, 599},
 		{25, 39, 200, 2000, 3999, 20000, 39999, 65535, 7, 99, 1000},
 		{0, 1, 9, 10, 11, 99, 100, 101, 999, 1000, 1001, 9999, 10000, 10001, 65534, 65535}}[r.Intn(5)] // the last: every change in the number of digits
-	errs := []string{"", "", "", "e1", "e2", "connection refused", "Get \"http://x\": EOF", "500 Internal Server Error"}
+	errs := []string{"", "", "", "e1", "e2", "connection refused", "Get \"http://x\": EOF", "500 Internal Server Error",
+		"Get \"http://x/a%20b?q=%d\": EOF", "disk 100% full", "dial tcp [fe80::1%lo]:80: connect: invalid argument", "%s %v %!(NOVERB)"}
 	if r.Intn(4) == 0 { // many distinct status codes
 		codes = nil
 		for k, nd := 0, 20+r.Intn(60); k < nd; k++ {
